@@ -576,8 +576,19 @@ def e_lwspec(s):
             % (cstr(s["name"]), e_int(s["vrows"]), e_int(s["cols"]), cxnum(s["min"]), cxnum(s["max"]), carr(init, cxnum), ccn))
 
 
+SENTINEL = -(10 ** 30)  # stands for a non-finite number: no model value ever equals it
+
+
+def _fr(v):
+    if isinstance(v, str) and v in ("nan", "inf", "-inf"):
+        return Fraction(SENTINEL)
+    if isinstance(v, float) and (v != v or abs(v) == float("inf")):
+        return Fraction(SENTINEL)
+    return Fraction(v)
+
+
 def e_vols(vs):
-    frs = [Fraction(v) for v in vs]
+    frs = [_fr(v) for v in vs]
     den = 1
     for f in frs:
         den = den * f.denominator // math.gcd(den, f.denominator)
@@ -592,7 +603,7 @@ def e_lwobs(o):
 def e_compobs(c):
     items = []
     for name, ent in (c or {}).items():
-        items.append(f"({cstr(name)}, {clist(['(%d, %s)' % (i, cz(round(Fraction(f) * TWO40))) for i, f in ent])})")
+        items.append(f"({cstr(name)}, {clist(['(%d, %s)' % (i, cz(round(_fr(f) * TWO40))) for i, f in ent])})")
     return clist(items)
 
 
